@@ -57,31 +57,40 @@ func ParseFile(f FileInput, opts ...Option) (prog *Prog, _ error) {
 
 		for {
 			n, err := f.Read(b[:])
+			verifPoint(1)
 			if err != nil && err != io.EOF {
+				verifPoint(3)
 				rerr <- err
 				break
 			}
 			if err == io.EOF && n == 0 {
+				verifPoint(3)
 				rerr <- nil
 				break
 			}
+			verifPoint(2)
 			select {
 			case inpc <- string(b[:n]):
 				continue
 			case <-done:
+				verifPoint(3)
 				rerr <- nil
 				return
 			}
 		}
+		verifPoint(4)
 		close(inpc)
 	}()
 
 	go func() {
 		p, err := parseWithOpts(inpc, f.Name(), opts)
+		verifPoint(5)
 		if err != nil {
+			verifPoint(6)
 			close(done)
 		}
 		prog = p
+		verifPoint(7)
 		perr <- err
 	}()
 
